@@ -181,7 +181,14 @@ void compare(const char *sname, const std::vector<Call> &calls, const SinkCfg &c
             else if (r.file != kBase[c.file]) what = "file";
             else if (r.line != c.line) what = "line";
             else if (have_time_us ? r.level != elevel : LOG_LEVEL_LEVEL_CODE[r.level] != LOG_LEVEL_LEVEL_CODE[elevel]) what = "level";
-            else if (r.sec < (uint32_t)c.t0.tv_sec || r.sec > (uint32_t)c.t1.tv_sec) what = "timestamp";
+            else {
+                // the record's time stamp is read inside the log call: it must lie between the harness's own clock
+                // readings taken just before and just after the call (same clock, microsecond precision)
+                long long ts = (long long)r.sec * 1000000LL + r.usec;
+                long long lo = (long long)c.t0.tv_sec * 1000000LL + c.t0.tv_usec, hi = (long long)c.t1.tv_sec * 1000000LL + c.t1.tv_usec;
+                if (ts < lo || ts > hi) what = "timestamp";
+                if (r.sec != (uint32_t)c.t0.tv_sec) vh::counter("records_stamped_in_a_later_second_than_call_start");
+            }
             if (what) {
                 // distinguish loss / duplication / reordering from corruption of one record
                 std::string cls = what;
